@@ -32,7 +32,15 @@ static void gen(Fq6& a, int t) { gen(a.c0, t); gen(a.c1, t + 3); gen(a.c2, t + 5
 static void gen(Fq12& a, int t) { gen(a.c0, t); gen(a.c1, t + 3); }
 template <int bits> static void gen(BigInt<bits>& a, int t) {
     memset(&a, 0, sizeof a);
-    switch (t % 6) { case 0: break; case 1: memset(a.bytes, 0xff, bits / 8); break; case 2: a.bytes[0] = 1; break; default: rng_cb(a.bytes, bits / 8); }
+    // zero, all ones, one, a small value, |x|-1 (the largest single base-|x| digit), 2^64, the rest random
+    switch (t % 10) {
+    case 0: break;
+    case 1: memset(a.bytes, 0xff, bits / 8); break;
+    case 2: a.bytes[0] = 1; break;
+    case 3: a.bytes[0] = 5; break;
+    case 4: { const uint64_t xm1 = 0xd20100000000ffffull; memcpy(a.bytes, &xm1, 8); break; }
+    case 5: if (bits > 64) a.bytes[8] = 1; else a.bytes[7] = 0x80; break;
+    default: rng_cb(a.bytes, bits / 8); }
 }
 static void gen(G1& p, int t) {
     if (t % 8 == 0) { p.copy(G1::zero); return; }
@@ -88,7 +96,7 @@ static void binary_g(const char* name, int mask, GA ga, GB gb, F f) {
     int bad[3] = {0, 0, 0}, first[3] = {-1, -1, -1};
     for (int t = 0; t < g_trials; t++) {
         T a; U b; T ref, x;
-        ga(a, t); gb(b, t * 3 + 1);
+        ga(a, t); gb(b, t * 7 + 1);      // 7 is coprime to every special-value period (6, 8, 10): all combinations of residues occur
         memset(&ref, 0xa5, sizeof ref);
         f(ref, a, b);
         if (mask & 1) {
